@@ -99,6 +99,7 @@ fn arb_case(u: &mut Unstructured) -> arbitrary::Result<WireCase> {
         3 => Blocking::Raw(u.int_in_range(1..=70_000)?),
         4 => Blocking::Compressed(u.int_in_range(1..=70_000)?),
         5 => Blocking::Mixed(u.int_in_range(1..=70_000)?),
+        6 => Blocking::RawFlushEmpty(u.int_in_range(1..=64)?),
         _ => Blocking::CompressedStream(u.int_in_range(1..=70_000)?),
     };
     let twin_ids = u.ratio(1, 5)?;
@@ -244,7 +245,20 @@ pub fn corpus_replay(ctx: &Ctx, targets: &[&str], n: usize) -> SubResult {
             if data.len() > 16_384 {
                 res.tally.nontrivial(fnv64(data));
             }
-            if let Err(f) = run_target(target, data) {
+            let inflight = if inflight_enabled(&ctx.prop) {
+                let dir = format!("{}/inflight", out_dir());
+                let _ = std::fs::create_dir_all(&dir);
+                let path = format!("{dir}/fuzz-{target}-{:016x}", fnv64(data));
+                let _ = std::fs::write(&path, data);
+                Some(path)
+            } else {
+                None
+            };
+            let outcome = run_target(target, data);
+            if let Some(path) = &inflight {
+                let _ = std::fs::remove_file(path);
+            }
+            if let Err(f) = outcome {
                 let dir = format!("{}/replays", out_dir());
                 let _ = std::fs::create_dir_all(&dir);
                 let path = format!("{dir}/fuzz-{target}-{:016x}", fnv64(data));
